@@ -57,6 +57,14 @@ func runC06(ctx *Ctx) {
 	for m := 4; m < len(msgs); m++ {
 		ops = append(ops, c06op{m, 2, false})
 	}
+	// long messages (NAS containers go far beyond 256 and 1024 octets): sent in histories of one and two sends only
+	shortOps := len(ops)
+	for _, n := range []int{240, 243, 244, 245, 300, 1010, 1013, 1100, 4000} {
+		msgs = append(msgs, nasTestpacket.GetSecurityModeComplete(pattern(3, n)))
+		for h := uint8(1); h <= 4; h++ {
+			ops = append(ops, c06op{len(msgs) - 1, h, false})
+		}
+	}
 	kint, kenc := a16(hx("2bd6459f82c5b300952c49104881ff48")), a16(hx("d3c5d592327fb11c4035c6680af8c6d1"))
 	depthAES, depthSnow := 3, 3
 	if ctx.Thorough {
@@ -67,7 +75,7 @@ func runC06(ctx *Ctx) {
 		lens = append(lens, len(m))
 	}
 	r.Rule = fmt.Sprintf("all send histories of length <=%d (algorithm pairs without SNOW 3G) / <=%d (pairs with NIA1 or NEA1) over %d operations (plain message of %v octets x security header type 1..4, with and without the new-context flag) x 6 algorithm pairs {NIA1,NIA2}x{NEA0,NEA1,NEA2} x starting COUNT %v (set through the exported counter, so every wrap is crossed); "+
-		"plus linear histories of 600 sends (two SQN wraps) and 65538 sends (overflow carry), the no-context case, and the counter type over all 2^24 values; oracle: an independent receiver (refnas + refcrypto) with the same keys: SQN octet = COUNT mod 256, COUNT = n-1 since the context was taken into use (new-context resets to 0), MAC = NIA(K, COUNT, BEARER 1, uplink, SQN||message as sent), ciphered only under header types 2/4, recovered plain == submitted plain; non-trivial = history length >= 2; distinct = (algorithms, start, operation sequence)",
+		"plus one- and three-send histories with messages of 250..4000 octets (around the 256- and 1024-octet marks) under every header type, linear histories of 600 sends (two SQN wraps) and 65538 sends (overflow carry), the no-context case, and the counter type over all 2^24 values; oracle: an independent receiver (refnas + refcrypto) with the same keys: SQN octet = COUNT mod 256, COUNT = n-1 since the context was taken into use (new-context resets to 0), MAC = NIA(K, COUNT, BEARER 1, uplink, SQN||message as sent), ciphered only under header types 2/4, recovered plain == submitted plain; non-trivial = history length >= 2; distinct = (algorithms, start, operation sequence)",
 		depthAES, depthSnow, len(ops), lens, starts)
 	r.Assume("refcrypto anchors (see C07)", "keys are two fixed published test keys: the protection logic has no key-dependent branch")
 	if !ctx.IsChild() {
@@ -96,11 +104,20 @@ func runC06(ctx *Ctx) {
 				if len(seq) == depth {
 					return
 				}
-				for i := range ops {
+				for i := 0; i < shortOps; i++ {
 					rec(append(seq, i))
 				}
 			}
 			rec(nil)
+		}
+		for li := shortOps; li < len(ops); li++ {
+			for _, start := range []uint32{0, 0xff} {
+				item++
+				if ctx.Mine(item) {
+					c06history(r, l, msgs, ops, alg, kint, kenc, start, []int{li})
+					c06history(r, l, msgs, ops, alg, kint, kenc, start, []int{1, li, 5})
+				}
+			}
 		}
 		// linear histories
 		item++
